@@ -129,14 +129,14 @@ type Result struct {
 }
 
 type Config struct {
-	Bound      int  // max deviations; <0 = unbounded
-	ShardIndex int  // 0-based
-	ShardCount int  // >=1
-	Deadline   time.Time
-	MaxExecs   int64 // 0 = unlimited
-	StopAtFirst bool // stop the search at the first violation
-	KeepLabels bool
-	Prune      bool // prune executions that reach an already visited global state (needs a scheduler that calls Ctx.Visit)
+	Bound       int // max deviations; <0 = unbounded
+	ShardIndex  int // 0-based
+	ShardCount  int // >=1
+	Deadline    time.Time
+	MaxExecs    int64 // 0 = unlimited
+	StopAtFirst bool  // stop the search at the first violation
+	KeepLabels  bool
+	Prune       bool // prune executions that reach an already visited global state (needs a scheduler that calls Ctx.Visit)
 }
 
 type Found struct {
@@ -156,7 +156,7 @@ type Stats struct {
 	Violations   []Found
 	Pruned       int64 // executions abandoned at an already visited state
 	States       int64 // distinct global-state fingerprints visited (Prune only)
-	CapHit       bool // deadline or MaxExecs ended the search early
+	CapHit       bool  // deadline or MaxExecs ended the search early
 	BoundReached int
 	MaxCostSeen  int
 	Samples      [][]int
